@@ -33,6 +33,7 @@ macro_rules! rate_limited {
 
         let time = $crate::rate_limit::time_since_arbitrary_epoch();
         let next = NEXT_CALL.load(Ordering::Relaxed);
+        metrique_writer_core::__verif_point!("rl.loaded");
         if next <= time.as_secs() {
             let new_next = time
                 .checked_add(interval)
